@@ -45,6 +45,9 @@ func SPP(pointer uint16) Message {
 func SongSelect(song uint8) Message {
 	// TODO check - it is a guess
 	//return NewMessage([]byte{byteSysSongSelect, song})
+	if song > 127 {
+		song = 127
+	}
 	return []byte{byteSysSongSelect, song}
 }
 
@@ -76,5 +79,8 @@ func MTC(m uint8) Message {
 	// TODO check - it is a guess
 	// TODO provide a better abstraction for MTC
 	//return NewMessage([]byte{byteMIDITimingCodeMessage, byte(m)})
+	if m > 127 {
+		m = 127
+	}
 	return []byte{byteMIDITimingCodeMessage, byte(m)}
 }
